@@ -64,8 +64,12 @@ class Ctx:
     def __init__(self, pid, tier="quick", seed=0):
         self.pid, self.tier, self.seed = pid, tier, seed
         self.t0 = time.time()
-        self.work = os.path.join(VERIF, ".work", pid)
+        # scratch files of this run (cases, observations); private to the process, so that two runs of the same check cannot disturb each other
+        self.work = os.path.join(VERIF, ".work", "%s.%d" % (pid, os.getpid()))
         os.makedirs(self.work, exist_ok=True)
+        import atexit, shutil
+        if not os.environ.get("VERIF_KEEP_WORK"):
+            atexit.register(shutil.rmtree, self.work, True)
         self.rng = random.Random(seed)
         self.states = 0
         self.transitions = 0
